@@ -360,3 +360,312 @@ Proof.
   repeat split; vm_compute; reflexivity.
 Qed.
 Print Assumptions C08_evolution_builtin_mask_refuted.
+
+(* ======================================================================================================================
+   GAP CLOSING (Proofs/C08GapA.v — clause-by-clause table of the property text against the theorems above —, C08GapB.v,
+   C08GapC.v; new definitions in Model/C08GapDefs.v).  Nothing above is changed.
+   ====================================================================================================================== *)
+From BP Require Import Model.Len Model.C08GapDefs Proofs.C08GapA Proofs.C08GapB.
+From BP Require Model.History Model.C07Ops Model.C01Reach Model.C01Parse Model.C17Typed Model.C17Nested.
+
+(* "do not disturb", at full strength: an EQUATION of results.  For every schema, class and byte string of complete records, parse
+   returns / raises exactly what it returns / raises on the input with the unknown records deleted, the unknown bytes attached:
+   unknown records change neither the object, nor whether parse raises, nor WHICH exception it raises.
+   (C08_known_undisturbed / _conv are the Ok-half of this.) *)
+Theorem C08_parse_unknown_exact : forall sc c bs ps,
+  records bs ps ->
+  parse sc c bs = rmap (fun m' => set_unk m' (unknown_raw (get_class sc c) ps))
+                       (parse sc c (known_raw (get_class sc c) ps)).
+Proof. exact parse_unknown_exact. Qed.
+Print Assumptions C08_parse_unknown_exact.
+
+Theorem C08_unknown_err_iff : forall sc c bs ps e,
+  records bs ps -> (parse sc c bs = Err e <-> parse sc c (known_raw (get_class sc c) ps) = Err e).
+Proof. exact unknown_err_iff. Qed.
+Print Assumptions C08_unknown_err_iff.
+
+(* "any position": a well-formed sequence u of records unknown to the class — stated with the decoder-independent grammar
+   wire_records: any field numbers, varint / fixed64 / length-delimited / fixed32 / group, padded tags —, inserted between ANY two byte
+   strings of complete records, changes the result of parse by exactly this: u sits in _unknown_fields between the unknown bytes of
+   what precedes and of what follows (failures are carried over unchanged) *)
+Theorem C08_insert_anywhere : forall sc c a pa b pb u rs,
+  records a pa -> records b pb -> wire_records u rs -> forallb (t_unknown (get_class sc c)) rs = true ->
+  parse sc c (a ++ u ++ b) =
+  rmap (fun m => set_unk m (unknown_raw (get_class sc c) pa ++ u ++ unknown_raw (get_class sc c) pb)) (parse sc c (a ++ b)).
+Proof. exact insert_anywhere. Qed.
+Print Assumptions C08_insert_anywhere.
+
+(* two inputs with the same known subsequence and the same unknown subsequence parse alike, however the two are interleaved *)
+Theorem C08_interleaving_irrelevant : forall sc c bs ps bs' ps',
+  records bs ps -> records bs' ps' ->
+  known_raw (get_class sc c) ps = known_raw (get_class sc c) ps' ->
+  unknown_raw (get_class sc c) ps = unknown_raw (get_class sc c) ps' ->
+  parse sc c bs = parse sc c bs'.
+Proof. exact interleaving_irrelevant. Qed.
+Print Assumptions C08_interleaving_irrelevant.
+
+(* what "absent from the receiving schema" means for the model's [is_unknown] / [unknown_nw]: EXACTLY the records whose number no field
+   declares, plus those whose (unique) field cannot arrive with that wire type; an undeclared number is unknown with EVERY wire type *)
+Theorem C08_field_lookup_none_iff : forall cd num,
+  field_by_number cd num = None <-> forall f, In f (cfields cd) -> fnum f <> num.
+Proof. exact fbn_none_iff. Qed.
+Print Assumptions C08_field_lookup_none_iff.
+
+Theorem C08_unknown_iff : forall cd num wt,
+  nodup_z (map fnum (cfields cd)) = true ->
+  (unknown_nw cd num wt = true <->
+   (forall f, In f (cfields cd) -> fnum f <> num) \/
+   (exists f, In f (cfields cd) /\ fnum f = num /\ wire_type_fits f wt = false)).
+Proof. exact unknown_iff. Qed.
+Print Assumptions C08_unknown_iff.
+
+Theorem C08_undeclared_unknown_all_wire_types : forall cd num,
+  (forall f, In f (cfields cd) -> fnum f <> num) -> forall wt, unknown_nw cd num wt = true.
+Proof. exact undeclared_unknown_all_wire_types. Qed.
+Print Assumptions C08_undeclared_unknown_all_wire_types.
+
+(* "re-emitted byte-for-byte when the message is encoded again", composed: bytes(Cls().parse(bs)) is the encoding of the known state
+   followed by the unknown records of bs, verbatim and in arrival order; the known state is what parse builds from the known records *)
+Theorem C08_reemit_parse : forall sc c bs m b2,
+  parse sc c bs = Ok m -> enc_obj sc m = Ok b2 ->
+  exists ps body, records bs ps /\ enc_obj sc (clear_unk m) = Ok body /\
+                  b2 = body ++ unknown_raw (get_class sc c) ps /\
+                  parse sc c (known_raw (get_class sc c) ps) = Ok (clear_unk m).
+Proof. exact reemit_parse. Qed.
+Print Assumptions C08_reemit_parse.
+
+Theorem C08_reemit_parse_spec : forall sc c bs rs m b2,
+  wire_records bs rs -> parse sc c bs = Ok m -> enc_obj sc m = Ok b2 ->
+  exists body, enc_obj sc (clear_unk m) = Ok body /\ b2 = body ++ spec_unknown_raw (get_class sc c) rs.
+Proof. exact reemit_parse_spec. Qed.
+Print Assumptions C08_reemit_parse_spec.
+
+(* unknown bytes can never make bytes(m) raise *)
+Theorem C08_reemit_total : forall sc m body u,
+  enc_obj sc (clear_unk m) = Ok body -> enc_obj sc (set_unk m u) = Ok (body ++ u).
+Proof. exact reemit_total. Qed.
+Print Assumptions C08_reemit_total.
+
+(* composition with C09: len(m) counts the unknown bytes exactly, for every object *)
+Theorem C08_len_unknown : forall sc m n,
+  len_obj sc m = Ok n <-> exists k, len_obj sc (clear_unk m) = Ok k /\ n = k + Zlength (ounk m).
+Proof. exact len_unknown. Qed.
+Print Assumptions C08_len_unknown.
+
+Theorem C08_len_parse : forall sc c bs m k,
+  parse sc c bs = Ok m -> len_obj sc (clear_unk m) = Ok k ->
+  exists ps, records bs ps /\ len_obj sc m = Ok (k + Zlength (unknown_raw (get_class sc c) ps)).
+Proof. exact len_parse. Qed.
+Print Assumptions C08_len_parse.
+
+(* composition with C17's acceptance criterion (C17_accept_iff: parse returns iff the bytes are [valid]): validity of a byte string of
+   complete records does not depend on the records the class does not know, and is closed under inserting / deleting a well-formed
+   unknown sequence anywhere *)
+Theorem C08_accept_unknown_irrelevant : forall sc c bs ps,
+  wf_schema sc = true -> C17Typed.has_builtins sc -> C17Typed.entries_agree sc = true ->
+  records bs ps -> (C17Nested.valid sc c bs <-> C17Nested.valid sc c (known_raw (get_class sc c) ps)).
+Proof. exact accept_unknown_irrelevant. Qed.
+Print Assumptions C08_accept_unknown_irrelevant.
+
+Theorem C08_accept_insert_anywhere : forall sc c a pa b pb u rs,
+  wf_schema sc = true -> C17Typed.has_builtins sc -> C17Typed.entries_agree sc = true ->
+  records a pa -> records b pb -> wire_records u rs -> forallb (t_unknown (get_class sc c)) rs = true ->
+  (C17Nested.valid sc c (a ++ u ++ b) <-> C17Nested.valid sc c (a ++ b)).
+Proof. exact accept_insert_anywhere. Qed.
+Print Assumptions C08_accept_insert_anywhere.
+
+(* the value hypothesis of C08_evolution, discharged for every object a history of public-API operations produces (composition with
+   C01_reachable_value_ok[_parse]; the conditions are C01's decidable ones on the operations); [evolves] is the conclusion of C08_evolution *)
+Theorem C08_evolution_reachable : forall sn masks c ops m,
+  C01Def.c01_schema_ok sn = true -> masks_ok sn masks = true ->
+  C01Reach.hist_ok C01Reach.op_value_ok sn (new sn c) ops = true -> C07Ops.run7 sn (new sn c) ops = Ok m ->
+  evolves sn masks m.
+Proof. exact evolution_reachable. Qed.
+Print Assumptions C08_evolution_reachable.
+
+Theorem C08_evolution_reachable_parse : forall sn masks c ops m,
+  C01Def.c01_schema_ok sn = true -> masks_ok sn masks = true ->
+  C01Reach.hist_ok C01Parse.op_value_ok_p sn (new sn c) ops = true -> C07Ops.run7 sn (new sn c) ops = Ok m ->
+  evolves sn masks m.
+Proof. exact evolution_reachable_parse. Qed.
+Print Assumptions C08_evolution_reachable_parse.
+
+Theorem C08_evolves_is_evolution : forall sn masks m,
+  evolves sn masks m <->
+  exists b1, enc_obj sn m = Ok b1 /\
+    (Zlength b1 < 2 ^ 64 ->
+     exists mo b2 m2,
+       parse (drop_fields masks sn) (ocls m) b1 = Ok mo /\
+       enc_obj (drop_fields masks sn) mo = Ok b2 /\ length b2 = length b1 /\
+       parse sn (ocls m) b2 = Ok m2 /\ m2 = C01Def.norm_obj sn m /\
+       (C01Def.deep C01Def.nan_free (PMsg m) = true -> obj_eq sn m2 m = true /\ obj_eq sn m m2 = true) /\
+       (forall g, which_one_of m2 g = which_one_of m g) /\
+       enc_obj sn m2 = Ok b1).
+Proof. intros. reflexivity. Qed.
+Print Assumptions C08_evolves_is_evolution.
+
+(* "lossless" as injectivity: what the older writer emits determines what the newer writer wrote *)
+Theorem C08_evolution_injective : forall sn masks m m' b1 b1' mo mo' b2,
+  C01Def.c01_schema_ok sn = true -> masks_ok sn masks = true ->
+  C01Def.c01_value_ok sn m = true -> C01Def.c01_value_ok sn m' = true -> ocls m = ocls m' ->
+  enc_obj sn m = Ok b1 -> enc_obj sn m' = Ok b1' -> Zlength b1 < 2 ^ 64 -> Zlength b1' < 2 ^ 64 ->
+  parse (drop_fields masks sn) (ocls m) b1 = Ok mo -> parse (drop_fields masks sn) (ocls m') b1' = Ok mo' ->
+  enc_obj (drop_fields masks sn) mo = Ok b2 -> enc_obj (drop_fields masks sn) mo' = Ok b2 ->
+  b1 = b1' /\ C01Def.norm_obj sn m = C01Def.norm_obj sn m'.
+Proof. exact evolution_injective. Qed.
+Print Assumptions C08_evolution_injective.
+
+(* any number of passes: (older reader/writer, then newer reader/writer)^n maps bytes(m) to bytes(m) *)
+Theorem C08_evolution_relay : forall sn masks m b1,
+  C01Def.c01_schema_ok sn = true -> masks_ok sn masks = true -> C01Def.c01_value_ok sn m = true ->
+  enc_obj sn m = Ok b1 -> Zlength b1 < 2 ^ 64 ->
+  exists b2, relay (drop_fields masks sn) (ocls m) b1 = Ok b2 /\ relay sn (ocls m) b2 = Ok b1 /\ length b2 = length b1.
+Proof. exact evolution_relay. Qed.
+Print Assumptions C08_evolution_relay.
+
+Theorem C08_evolution_relay_chain : forall sn masks m b1 n,
+  C01Def.c01_schema_ok sn = true -> masks_ok sn masks = true -> C01Def.c01_value_ok sn m = true ->
+  enc_obj sn m = Ok b1 -> Zlength b1 < 2 ^ 64 ->
+  relay_chain (drop_fields masks sn) sn (ocls m) n b1 = Ok b1.
+Proof. exact evolution_relay_chain. Qed.
+Print Assumptions C08_evolution_relay_chain.
+
+(* composition with C09 under evolution: len() of the older reader's object = len() of the newer object = |bytes(m)|, of which exactly
+   |_unknown_fields| bytes are the deleted fields' records *)
+Theorem C08_evolution_len : forall sn masks m b1 mo,
+  C01Def.c01_schema_ok sn = true -> masks_ok sn masks = true -> C01Def.c01_value_ok sn m = true ->
+  enc_obj sn m = Ok b1 -> Zlength b1 < 2 ^ 64 ->
+  parse (drop_fields masks sn) (ocls m) b1 = Ok mo ->
+  len_obj (drop_fields masks sn) mo = Ok (Zlength b1) /\ len_obj sn m = Ok (Zlength b1) /\
+  exists k, len_obj (drop_fields masks sn) (clear_unk mo) = Ok k /\ Zlength b1 = k + Zlength (ounk mo).
+Proof. exact evolution_len. Qed.
+Print Assumptions C08_evolution_len.
+
+(* ---- non-vacuity of the gap-closing theorems ---- *)
+(* an unknown varint (field 99, padded tag) before a string record with invalid UTF-8: the same exception with and without it *)
+Definition exg_bad : list byte := [x98; x86; x00; x05] ++ [x12; x01; xff].
+Example C08_parse_unknown_exact_nonvacuous :
+  records exg_bad (ex_ps exg_bad) /\ length (filter (is_unknown (get_class ex_old 11)) (ex_ps exg_bad)) = 1%nat /\
+  parse ex_old 11 exg_bad = Err EUnicode /\
+  parse ex_old 11 (known_raw (get_class ex_old 11) (ex_ps exg_bad)) = Err EUnicode /\
+  records ex_bs (ex_ps ex_bs) /\
+  parse ex_old 11 ex_bs = rmap (fun m' => set_unk m' (unknown_raw (get_class ex_old 11) (ex_ps ex_bs)))
+                               (parse ex_old 11 (known_raw (get_class ex_old 11) (ex_ps ex_bs))).
+Proof.
+  split; [apply frames_sound with (n := S (length exg_bad)); vm_compute; reflexivity|].
+  split; [vm_compute; reflexivity|]. split; [vm_compute; reflexivity|]. split; [vm_compute; reflexivity|].
+  split; [apply frames_sound with (n := S (length ex_bs)); vm_compute; reflexivity|]. vm_compute. reflexivity.
+Qed.
+
+(* the two-record unknown sequence of C08_spec_nonvacuous (varint 99 with padded tag; group 20 holding a fixed32) inserted after the
+   first record of bytes(ex_m) *)
+Definition exg_u : list byte := [x98; x86; x00; x05] ++ ([xa3; x01] ++ ([x0d] ++ [x01; x02; x03; x04]) ++ [xa4; x01]) ++ [].
+Definition exg_rs : list (Z * Z * list byte) :=
+  [(99, 0, [x98; x86; x00; x05]); (20, 3, [xa3; x01] ++ ([x0d] ++ [x01; x02; x03; x04]) ++ [xa4; x01])].
+Example C08_insert_anywhere_nonvacuous :
+  wire_records exg_u exg_rs /\ forallb (t_unknown (get_class ex_old 11)) exg_rs = true /\
+  records (firstn 3 ex_b1) (ex_ps (firstn 3 ex_b1)) /\ records (skipn 3 ex_b1) (ex_ps (skipn 3 ex_b1)) /\
+  (exists m, parse ex_old 11 (firstn 3 ex_b1 ++ skipn 3 ex_b1) = Ok m /\ ounk m <> []) /\
+  (exists m, parse ex_old 11 (firstn 3 ex_b1 ++ exg_u ++ skipn 3 ex_b1) = Ok m /\ (length (ounk m) > length exg_u)%nat).
+Proof.
+  split; [exact C08_spec_nonvacuous|]. split; [vm_compute; reflexivity|].
+  split; [apply frames_sound with (n := 4%nat); vm_compute; reflexivity|].
+  split; [apply frames_sound with (n := S (length ex_b1)); vm_compute; reflexivity|].
+  split; eexists; (split; [vm_compute; reflexivity | vm_compute; try discriminate; try lia]).
+Qed.
+
+Example C08_unknown_iff_nonvacuous :
+  nodup_z (map fnum (cfields (get_class ex_old 11))) = true /\
+  unknown_nw (get_class ex_old 11) 99 0 = true /\ unknown_nw (get_class ex_old 11) 99 5 = true /\
+  unknown_nw (get_class ex_old 11) 3 1 = true /\      (* d = 3 double: deleted from the older class *)
+  unknown_nw (get_class ex_old 11) 2 5 = true /\      (* s = 2 string cannot arrive as fixed32 *)
+  unknown_nw (get_class ex_old 11) 2 2 = false /\ unknown_nw (get_class ex_new 11) 3 1 = false.
+Proof. repeat split; vm_compute; reflexivity. Qed.
+
+Example C08_reemit_len_nonvacuous :
+  parse ex_old 11 ex_bs = Ok ex_mo_bs /\ (exists b2, enc_obj ex_old ex_mo_bs = Ok b2 /\ length b2 = 42%nat) /\
+  len_obj ex_old ex_mo_bs = Ok 42 /\ len_obj ex_old (clear_unk ex_mo_bs) = Ok 13 /\ Zlength (ounk ex_mo_bs) = 29.
+Proof. split; [vm_compute; reflexivity|]. split; [eexists; split; vm_compute; reflexivity|]. repeat split; vm_compute; reflexivity. Qed.
+
+Example C08_accept_nonvacuous :
+  wf_schema ex_new = true /\ C17Typed.has_builtins ex_new /\ C17Typed.entries_agree ex_new = true /\
+  records ex_bs (ex_ps ex_bs) /\ length (filter (is_unknown (get_class ex_new 11)) (ex_ps ex_bs)) = 3%nat /\
+  (exists m, parse ex_new 11 ex_bs = Ok m).
+Proof.
+  split; [vm_compute; reflexivity|]. split; [eexists; reflexivity|]. split; [vm_compute; reflexivity|].
+  split; [apply frames_sound with (n := S (length ex_bs)); vm_compute; reflexivity|].
+  split; [vm_compute; reflexivity|]. eexists. vm_compute. reflexivity.
+Qed.
+
+(* a history of six public-API operations on the recursive class of ex2_new: constructor, a oneof member, a Timestamp, the sibling member
+   (a fresh sub-message), two assignments inside it (one to a field the older schema deleted) *)
+Definition exg_hist : list C07Ops.op7 :=
+  [C07Ops.OConstruct [(0%nat, PInt 150); (6%nat, PFloat 4609434218613702656)];
+   C07Ops.OBase (History.OSet [] 1 (PStr [x78])); C07Ops.OBase (History.OSet [] 5 (PDatetime 1500000));
+   C07Ops.OBase (History.OSet [] 2 (PMsg (new ex2_new 11)));
+   C07Ops.OBase (History.OSet [2%nat] 0 (PInt 7)); C07Ops.OBase (History.OSet [2%nat] 1 (PStr [x79]))].
+Example C08_evolution_reachable_nonvacuous :
+  C01Def.c01_schema_ok ex2_new = true /\ masks_ok ex2_new ex2_masks = true /\
+  C01Reach.hist_ok C01Reach.op_value_ok ex2_new (new ex2_new 11) exg_hist = true /\
+  match C07Ops.run7 ex2_new (new ex2_new 11) exg_hist with
+  | Ok m => match enc_obj ex2_new m with
+            | Ok b1 => match parse ex2_old 11 b1 with
+                       | Ok mo => length b1 = 29%nat /\ length (ounk mo) = 13%nat /\
+                                  match enc_obj ex2_old mo with Ok b2 => b2 <> b1 /\ parse ex2_new 11 b2 = Ok (C01Def.norm_obj ex2_new m) | Err _ => False end
+                       | Err _ => False
+                       end
+            | Err _ => False
+            end
+  | Err _ => False
+  end.
+Proof.
+  split; [vm_compute; reflexivity|]. split; [vm_compute; reflexivity|]. split; [vm_compute; reflexivity|].
+  vm_compute. split; [reflexivity|]. split; [reflexivity|]. split; [discriminate | reflexivity].
+Qed.
+
+Example C08_relay_nonvacuous :
+  relay ex2_old 11 ex2_b1 = Ok ex2_b2 /\ relay ex2_new 11 ex2_b2 = Ok ex2_b1 /\ ex2_b2 <> ex2_b1 /\
+  relay_chain ex2_old ex2_new 11 3 ex2_b1 = Ok ex2_b1 /\
+  len_obj ex2_old ex2_mo = Ok 123 /\ len_obj ex2_old (clear_unk ex2_mo) = Ok 101.
+Proof. repeat split; vm_compute; try reflexivity; discriminate. Qed.
+
+(* Evolution TOGETHER WITH unknown fields (the two halves of the quantifier at once).  bs: bytes(m) with ANY records the NEWER class does
+   not know (undeclared numbers, non-fitting wire types, groups) interleaved at ANY position of the top level — stated as: the records of bs
+   the newer class knows are, in order, exactly bytes(m).  Then the newer reader reads bs as norm_obj m with those records in
+   _unknown_fields; the older reader (ANY masks_ok subset of fields deleted, at every depth) parses bs without raising, the older writer
+   re-emits a byte string of the same length, and the newer reader reads from it EXACTLY what it reads from bs: the message and the extra
+   records, verbatim and in their original order.  (Not covered: unknown records INSIDE nested messages of m.) *)
+From BP Require Import Proofs.C08GapD.
+Theorem C08_evolution_with_unknown : forall sn masks m b1 bs ps,
+  C01Def.c01_schema_ok sn = true -> masks_ok sn masks = true -> C01Def.c01_value_ok sn m = true ->
+  enc_obj sn m = Ok b1 -> Zlength b1 < 2 ^ 64 ->
+  records bs ps -> known_raw (get_class sn (ocls m)) ps = b1 ->
+  parse sn (ocls m) bs = Ok (set_unk (C01Def.norm_obj sn m) (unknown_raw (get_class sn (ocls m)) ps)) /\
+  exists mo b2,
+    parse (drop_fields masks sn) (ocls m) bs = Ok mo /\
+    enc_obj (drop_fields masks sn) mo = Ok b2 /\ length b2 = length bs /\
+    parse sn (ocls m) b2 = Ok (set_unk (C01Def.norm_obj sn m) (unknown_raw (get_class sn (ocls m)) ps)).
+Proof. exact evolution_with_unknown. Qed.
+Print Assumptions C08_evolution_with_unknown.
+
+(* bytes(ex2_m) with a padded-tag varint (99) in front, a group (20) after the first record and a fixed32 on the string field's number at
+   the end: 15 bytes the newer class does not know; the older class additionally does not know a, s, t at every level *)
+Definition exg2_bs : list byte :=
+  [x98; x86; x00; x05] ++ firstn 3 ex2_b1 ++ [xa3; x01; x08; x05; xa4; x01] ++ skipn 3 ex2_b1 ++ [x15; x01; x02; x03; x04].
+Example C08_evolution_with_unknown_nonvacuous :
+  records exg2_bs (ex_ps exg2_bs) /\ known_raw (get_class ex2_new 11) (ex_ps exg2_bs) = ex2_b1 /\
+  length (unknown_raw (get_class ex2_new 11) (ex_ps exg2_bs)) = 15%nat /\
+  match parse ex2_old 11 exg2_bs with
+  | Ok mo => (length (ounk mo) > 15)%nat /\
+             match enc_obj ex2_old mo with
+             | Ok b2 => b2 <> exg2_bs /\ parse ex2_new 11 b2 = parse ex2_new 11 exg2_bs /\
+                        parse ex2_new 11 b2 = Ok (set_unk (C01Def.norm_obj ex2_new ex2_m) (unknown_raw (get_class ex2_new 11) (ex_ps exg2_bs)))
+             | Err _ => False
+             end
+  | Err _ => False
+  end.
+Proof.
+  split; [apply frames_sound with (n := S (length exg2_bs)); vm_compute; reflexivity|].
+  split; [vm_compute; reflexivity|]. split; [vm_compute; reflexivity|].
+  vm_compute. split; [lia|]. split; [discriminate|]. split; reflexivity.
+Qed.
